@@ -117,3 +117,18 @@ Proof.
   - intros (i & r & Hi & U & Hj). exists r. split; [exact (nth_error_In _ _ Hi)|]. rewrite U.
     rewrite (lookup_term_row rows i r (r_factors r) Hnd Hi eq_refl). apply in_seq. exact Hj.
 Qed.
+
+(* term_slices: the slice of a term is exactly its contiguous range (empty terms give the empty slice at 0) *)
+Theorem slice_of_range a n : slice_of (seq a (S n)) = (a, a + S n).
+Proof.
+  unfold slice_of. cbn [seq]. f_equal. assert (L : forall m b d, last (seq b (S m)) d = b + m).
+  { induction m as [|m IH]; intros b d; [cbn; lia|]. change (seq b (S (S m))) with (b :: seq (S b) (S m)).
+    assert (E : seq (S b) (S m) <> []) by discriminate. destruct (seq (S b) (S m)) as [|x r] eqn:Es; [contradiction|].
+    change (last (b :: x :: r) d) with (last (x :: r) d). rewrite <- Es, IH. lia. }
+  change (a :: seq (S a) n) with (seq a (S n)). rewrite L. lia.
+Qed.
+Theorem slice_of_empty : slice_of [] = (0, 0).
+Proof. reflexivity. Qed.
+Corollary term_slice_exact rows i r c n : NoDup (keys rows) -> nth_error rows i = Some r -> tkey (r_factors r) = tkey c -> length (r_cols r) = S n ->
+  option_map slice_of (lookup_term rows c) = Some (start_of rows i, start_of rows i + S n).
+Proof. intros Hnd Hi Hk Hl. rewrite (lookup_term_row rows i r c Hnd Hi Hk), Hl. cbn [option_map]. rewrite slice_of_range. reflexivity. Qed.
